@@ -209,7 +209,17 @@ impl Op {
             Op::Sync(_) => ("legacy-form".into(), false),
             Op::Base(..) => ("-".into(), false),
             Op::Fifo(_) => ("-".into(), false),
-            Op::Power { dbm, prep, .. } => (format!("{}/{}", power_class(chip, *dbm), if *prep { "ramp40" } else { "ramp200" }), false),
+            Op::Power { dbm, prep, .. } => {
+                // high-power PA: t0/t1 = TxClamp read/write, then SetPaConfig, SetTxParams
+                let stage = if chip.high_power() { t as isize - 2 } else { t as isize };
+                if stage < 0 {
+                    ("tx-clamp/workaround15.2".into(), false)
+                } else if stage == 1 && j == 2 {
+                    ((if *prep { "ramp40" } else { "ramp200" }).into(), true)
+                } else {
+                    (power_class(chip, *dbm).to_string(), false)
+                }
+            }
             Op::Irq(m) => (m.name().into(), true),
             Op::Rx(RxKind::Single(n)) => (format!("single/{}", symb_class(*n)), false),
             Op::Rx(RxKind::Continuous) => ("cont".into(), true),
